@@ -202,6 +202,9 @@ theorem integer_text_first_try (v : Int) (h1 : -9223372036854775808 ≤ v) (h2 :
   simp only [decide_eq_true_eq]
   omega
 
+/-- `String::fromPrintf` returns the formatted text as well (it is `String::printf` on a String of capacity 203) -/
+theorem fromPrintf_text (text : List Nat) : fromPrintf text = text := printf_eq printfCap text
+
 /-! ## round trips through the STATIC overloads, every value of each type (incl. the minimum values) -/
 
 theorem static_roundtrips :
